@@ -1,4 +1,4 @@
-from harness.common import Prop, canon, use_repo_src
+from harness.common import Prop, canon, use_repo_src, scale
 from harness.gen_text import err_tag
 
 TYPES = [['int'], ['void'], ['std', 'string'], ['My', 'Data'], ['size_t'], ['dzn', 'locator']]
@@ -56,7 +56,7 @@ class C20(Prop):
                   'non-trivial = >=1 parameter or non-empty contents; distinct = distinct descriptor')
 
     def streams(self, rng, tier):
-        n = 800 if tier == 'quick' else 30000
+        n = 800 if tier == 'quick' else scale(200000)
         fns, ctors, blocks, misc = [], [], [], []
         for _ in range(n):
             prefix = rng.choice(['', '', 'virtual', 'static'])
